@@ -8,22 +8,49 @@ from vlib import shotgen as sg
 def corr_fire(chk, drv, pbc, n, *, label='fire', gen_kwargs=None, cfg_default=0.5, requests=None, want_extra=None):
     """n random shots through TrajectoryCalc.trajectory vs the model's `integrate` (bit-exact expected)."""
     rng = chk.rng
+    U = pbc.Unit
     c = Corr(label)
     dist = Counter()
     nontriv = set()
+    pool = {}          # long-used calculators, one per configuration (hidden state in a calculator would show against the stateless model)
+    prev = None
     for i in range(n):
         cfg = sg.gen_config(rng, cfg_default)
-        calc = pbc.Calculator(_config=cfg)
-        shot, _ = sg.gen_shot(pbc, rng, **(gen_kwargs or {}))
+        key = repr(sorted(cfg.items()))
+        if key not in pool:
+            pool[key] = (pbc.Calculator(_config=cfg), pbc.interface_config.create_interface_config(cfg))
+        calc, cfg0 = pool[key]
+        r0 = rng.random()
+        if prev is not None and r0 < 0.25:
+            # the same rifle and ammunition under new conditions (a user editing a shot): new atmosphere and/or winds
+            shot = prev
+            r1 = rng.random()
+            if r1 < 0.4:
+                for _e in range(rng.randint(1, 2)):
+                    sg.edit_in_place(pbc, rng, shot)       # attributes of the very objects the calculator has already seen
+                dist['edited-in-place'] += 1
+            elif r1 < 0.75:
+                shot.atmo = pbc.Atmo(U.Foot(rng.uniform(0, 9000)), U.hPa(rng.uniform(650, 1050)), U.Celsius(rng.uniform(-25, 40)), rng.uniform(0, 1))
+            else:
+                shot.winds = [sg.gen_wind(pbc, rng) for _ in range(rng.randint(0, 3))]
+            dist['reused-shot'] += 1
+        else:
+            shot, _ = sg.gen_shot(pbc, rng, **(gen_kwargs or {}))
+        prev = shot
+        if rng.random() < 0.4:
+            sg.scramble_units(pbc, rng, shot)      # display units are not an input of any computation
+            dist['display-units-scrambled'] += 1
         if requests:
             R, step, extra, ts = requests(rng)
         else:
             R = rng.choice([100.0, 300.0, 1000.0, 1500.0, rng.uniform(10, 3000)])
             step = rng.choice([R / 10, 10.0, 25.0, rng.uniform(1, 200), R])
+            if rng.random() < 0.12:   # recording steps BELOW the maximum integration step (short range keeps the row count small)
+                R, step = rng.choice([30.0, 60.0]), rng.choice([0.1, 0.25, 0.3, 0.45])
             extra = rng.random() < 0.4 if want_extra is None else want_extra
             ts = rng.choice([0.0, 0.0, 0.01, 0.1])
         ans = sg.py_fire(pbc, calc, shot, R, step, extra, ts)
-        line = sg.fire_line(pbc, calc, shot, R, step, extra, ts)
+        line = sg.fire_line(pbc, calc, shot, R, step, extra, ts, cfg0)   # cfg0: the configuration the calculator was BUILT with
         c.add(line, ans, {'range_ft': R, 'step_ft': step, 'extra': extra, 'time_step': ts, 'config': cfg,
                           'winds': len(shot._winds), 'outcome': ans[:24]})
         key = ans.split()[0] if not ans.startswith('err:range') else ' '.join(ans.split()[:2])
@@ -43,11 +70,35 @@ def corr_fire(chk, drv, pbc, n, *, label='fire', gen_kwargs=None, cfg_default=0.
     return r
 
 
+def corr_lob(chk, drv, pbc, n, label='fire-lob'):
+    """high-angle lobs of low-drag projectiles with extra data and time rows vs the model (bit-exact expected)"""
+    rng = chk.rng
+    c = Corr(label)
+    dist = Counter()
+    calc = pbc.Calculator()
+    for _ in range(n):
+        shot = sg.gen_lob(pbc, rng)
+        R, step, ts = 60000.0, 6000.0, rng.choice([0.5, 1.0])
+        ans = sg.py_fire(pbc, calc, shot, R, step, True, ts)
+        c.add(sg.fire_line(pbc, calc, shot, R, step, True, ts), ans, {'lob_deg': shot.relative_angle >> pbc.Unit.Degree, 'bc': shot.ammo.dm.BC, 'outcome': ans[:24]})
+        toks = ans.split()
+        dist[' '.join(toks[:2]) if ans.startswith('err:range') else toks[0]] += 1
+    r = c.finish(drv)
+    chk.corr.append(r)
+    chk.oblige(f'corr:{label}', 'correspondence', r['mismatch'] == 0,
+               f"{r['cases']} lobbed shots (75-88 deg, BC 1.5-5), {r['bit_identical']} bit-identical, {r['mismatch']} mismatches")
+    chk.stats.setdefault('distribution', {})[label] = {k: v for k, v in dist.items() if v}
+    return r
+
+
 def zero_answer(pbc, calc, shot, dist_ft):
     U = pbc.Unit
     try:
-        e = calc._calc.zero_angle(shot, U.Foot(dist_ft))
+        with sg.time_limit():
+            e = calc._calc.zero_angle(shot, U.Foot(dist_ft))
         return 'ok f%d' % f2b(e.raw_value)
+    except sg.OpTimeout:
+        return 'err:timeout'
     except pbc.ZeroFindingError as ex:
         return 'err:zero f%d %d f%d' % (f2b(ex.zero_finding_error), ex.iterations_count, f2b(ex.last_barrel_elevation.raw_value))
     except pbc.RangeError as ex:
